@@ -57,27 +57,38 @@ package rueidis
 //@ func readS
 //@   safety C13
 //@   modifies *
+//@   ensures [C13 length-is-a-length] result2 == nil ==> (0 <= result1 && result1 < 140737488355328)
+//@   ensures [C13 error-returns-nothing] result2 != nil ==> (result0 == nil && result1 == 0)
 
 //@ func readB
 //@   safety C13
 //@   option alloc-bound=1048576
 //@   modifies *
+//@   ensures [C13 length-is-a-length] result2 == nil ==> (0 <= result1 && result1 < 140737488355328)
+//@   ensures [C13 error-returns-nothing] result2 != nil ==> (result0 == nil && result1 == 0)
 
 //@ func readN
 //@   requires length >= 0
 //@   safety C13
 //@   option alloc-bound=1048576
 //@   modifies *
+//@   ensures [C13 reads-exactly-length] result1 == nil ==> len(result0) == length
+//@   loop 0: invariant [C13] len(bs) >= 0 && len(bs) <= length
 
 //@ func readE
 //@   safety C13
 //@   option alloc-bound=1048576
 //@   modifies *
+//@   ensures [C13 length-is-a-length] result2 == nil ==> (0 <= result1 && result1 < 140737488355328)
+//@   ensures [C13 error-returns-nothing] result2 != nil ==> (result0 == nil && result1 == 0)
 
 //@ func readA
 //@   safety C13
 //@   option alloc-bound=1048576
 //@   modifies *
+//@   ensures [C13 length-is-a-length] result2 == nil ==> (0 <= result1 && result1 < 140737488355328)
+//@   ensures [C13 error-returns-nothing] result2 != nil ==> (result0 == nil && result1 == 0)
+//@   loop 0: invariant [C13] rangeint >= 0 && rangeint < length && len(msgs) == rangeint
 
 //@ func readSimpleString
 //@   safety C13
